@@ -57,7 +57,9 @@ def has_test_attribute(function_node: Node) -> bool:
     """
     prev_sibling = function_node.prev_sibling
     while prev_sibling is not None and prev_sibling.type == "attribute_item":
-        if "test" in _get_node_text(prev_sibling):
+        text = _get_node_text(prev_sibling)
+        # #[cfg(not(test))] marks code that is compiled only OUTSIDE tests
+        if "test" in text and "not(test)" not in text.replace(" ", ""):
             return True
         prev_sibling = prev_sibling.prev_sibling
     return False
